@@ -367,6 +367,19 @@ def run(ctx):
     from . import C06
     C06.version_change_rules(ctx, "R-C08.7")
 
+    # ---- R-C08.4 (cont.) which of its writes a transaction commits depends on the transaction alone: the commit loop never
+    # reads the tree (or the transaction's own view) to decide whether a final write — a tombstone, say — "is needed":
+    # what the tree held at the snapshot instant says nothing about what it holds when the commit lands
+    bc = ctx.fn(BT + "::commit", "R-C08.4")
+    if bc:
+        from . import C05 as _C05
+        reads = [(b, A.cname(t)) for b, t in bc.calls() if (("AbstractTree" in A.cname(t) and A.cname(t).rsplit("::", 1)[-1] in _C05.TREE_READS)
+                 or A.cname(t).startswith(BT_R) or A.cname(t) in (BT + "::get", BT + "::contains_key"))]
+        ctx.ob("R-C08.4", bc, "commit-does-not-consult-the-tree", not reads,
+               "BaseTransaction::commit builds its batch from the transaction's memtables only" if not reads else
+               "BaseTransaction::commit reads the tree (%s) while building the batch: a final write is committed or dropped depending on what the SNAPSHOT held — another transaction may have committed the key since, and the dropped write (a remove) never happens" % reads[0][1],
+               bc.loc(reads[0][0]) if reads else "")
+
     # ---- R-C08.10 write-side forwarding table
     write_forwarding(ctx, "R-C08.10")
 
@@ -378,6 +391,8 @@ def run(ctx):
     D.loops_visit_all(ctx, "R-C08.12", only=("tx::write_tx::BaseTransaction::commit", "batch::WriteBatch::commit"))
 
     # ---- borrowed obligations (mechanisms owned by other properties that this property's verdict also rests on)
+    # commit applies all at once: the batch is applied under the keyspaces lock
+    ctx.borrow("C06", ["R-C06.11"], "R-C08.13")
     # commit applies all at once: no exit between the first applied item and the publish
     ctx.borrow("C03", ["R-C03.10"], "R-C08.8")
     # write-ahead order of the batch commit every transaction commit goes through
